@@ -177,6 +177,30 @@ func (p c07) Gen(r *simhook.Rand, tier string, idx int) harness.Scenario {
 		sc.Probes, sc.Probes2 = nil, nil
 		return sc
 	}
+	if r.Chance(1, 10) {
+		// class "dead-seed": one of the seed nodes (a replica nobody reads from) dies and stays dead; the others stay
+		// reachable.  Later a slot changes owner: the refresh rounds that the redirection sets off must get past the
+		// dead seed, whichever node answered the refresh before.
+		sc.Class = "dead-seed"
+		sc.IdleFaults = false
+		sc.Env = world.RedisCfg{Masters: 2, Replicas: 1, ConnectMs: 1000}
+		src := r.Intn(2)
+		keys = keysForNodes(r, 2, "h", 3)
+		k := keys[src][r.Intn(len(keys[src]))]
+		slot := cluster.Slot([]byte(k))
+		sc.SlackMs = []int{0, 1, 1000}[r.Intn(3)]
+		sc.Conns = []ConnScript{{Name: "c0", Reqs: []world.Request{
+			{Args: world.Bins("GET", k), Wait: true},
+			{Args: world.Bins("GET", k), Wait: true},
+			{Args: world.Bins("GET", k), Wait: true, Gap: 60000},
+		}}}
+		sc.Faults = []Fault{
+			{Kind: "layout", From: slot, To: slot, Dst: 1 - src, AtMs: 300000},
+			{Kind: "crash", Node: 2 + r.Intn(2), AtMs: 5000 + r.Intn(200000)},
+		}
+		sc.Probes, sc.Probes2 = nil, nil
+		return sc
+	}
 	if r.Chance(1, 10) && m >= 2 {
 		// class "replica-move": reads may go to replicas; one replica is re-attached to another master (the masters
 		// keep their ids, addresses and slots). After the refresh rounds that the first redirection triggers, reads
@@ -231,6 +255,14 @@ func (p c07) Gen(r *simhook.Rand, tier string, idx int) harness.Scenario {
 		from := r.Intn(cluster.NumSlots)
 		to := from + r.Intn(cluster.NumSlots-from)
 		sc.Faults = append(sc.Faults, Fault{Kind: "layout", From: from, To: to, Dst: r.Intn(m), AfterSend: at})
+		if r.Chance(1, 2) {
+			// reads go to replicas that discovery has not announced (the host list names the masters only): the refresh
+			// rounds that the layout change sets off happen while reads are queued on the replica connections
+			sc.Class = "layout+replica-reads"
+			sc.Env.Replicas = 1
+			sc.Env.ReadStrategy = 1 + r.Intn(2)
+			sc.Env.SeedMasters = true
+		}
 	default:
 		sc.Class = "mixed"
 		sc.Faults = append(sc.Faults, Fault{Kind: "rst", Node: r.Intn(m), AfterSend: at})
@@ -258,7 +290,7 @@ func (p c07) Gen(r *simhook.Rand, tier string, idx int) harness.Scenario {
 func (p c07) Run(t *testing.T, s harness.Scenario) harness.Outcome {
 	sc := s.(*RedisScenario)
 	w := newRedisWorld(sc)
-	if sc.Class == "refresh-in-flight" || sc.Class == "open-migration" || sc.Class == "named-seed-reset" {
+	if sc.Class == "refresh-in-flight" || sc.Class == "open-migration" || sc.Class == "named-seed-reset" || sc.Class == "dead-seed" {
 		return p.runRefreshInFlight(t, sc, w)
 	}
 	w.fin = func(w *redisWorld) *simrtViolation {
@@ -344,7 +376,7 @@ func (p c07) Run(t *testing.T, s harness.Scenario) harness.Outcome {
 // runRefreshInFlight: see the class comment in Gen.
 func (p c07) runRefreshInFlight(t *testing.T, sc *RedisScenario, w *redisWorld) harness.Outcome {
 	o := 0 // index of the request that waits for the layout change
-	if sc.Class == "named-seed-reset" {
+	if sc.Class == "named-seed-reset" || sc.Class == "dead-seed" {
 		o = 1 // a warm-up request comes first
 	}
 	if len(sc.Conns) == 0 || len(sc.Conns[0].Reqs) < o+2 {
